@@ -14,9 +14,20 @@ import (
 type Conn struct {
 	net.Conn
 	remoteCall string
+
+	// The buffered reader used during login. It may hold bytes that arrived
+	// together with the last login line, so reads must go through it.
+	reader *bufio.Reader
 }
 
 func (conn Conn) RemoteCall() string { return conn.remoteCall }
+
+func (conn *Conn) Read(p []byte) (int, error) {
+	if conn.reader != nil {
+		return conn.reader.Read(p)
+	}
+	return conn.Conn.Read(p)
+}
 
 type listener struct{ net.Listener }
 
@@ -54,5 +65,5 @@ func (ln listener) Accept() (net.Conn, error) {
 	fmt.Fprintf(conn, "Password :\r")
 	_, err = reader.ReadString('\r') //TODO
 
-	return &Conn{conn, remoteCall}, err
+	return &Conn{Conn: conn, remoteCall: remoteCall, reader: reader}, err
 }
